@@ -121,34 +121,37 @@ def decExport (v4 : Bool) (lines : List Str) : Option ExpSentence := do
 
 /-! ### bracket decoder (one tree per line, no whitespace inside labels and words) -/
 
-/-- recursive descent over characters; returns the tree and the rest; `cnt` numbers the tokens -/
-partial def decBrNode (s : Str) (cnt : Nat) : Option (Tree × Str × Nat) :=
-  match s with
-  | '(' :: r =>
+mutual
+/-- recursive descent over characters; returns the tree, the rest and the next token number.
+    `fuel` bounds the recursion (the text length suffices). -/
+def decBrNode : Nat → Str → Nat → Option (Tree × Str × Nat)
+  | 0, _, _ => none
+  | fuel + 1, '(' :: r, cnt =>
     let label := r.takeWhile (fun c => c != '(' && c != ')' && c != ' ')
-    let r := r.drop label.length
-    match r with
+    match r.drop label.length with
     | ' ' :: r2 =>
       let word := r2.takeWhile (fun c => c != ')')
-      match r2.drop word.length with
-      | ')' :: r3 => some (leaf cnt { label := label, word := some word }, r3, cnt + 1)
-      | _ => none
-    | '(' :: _ =>
-      let rec kids (s : Str) (cnt : Nat) (acc : List Tree) : Option (List Tree × Str × Nat) :=
-        match s with
-        | ')' :: r => some (acc.reverse, r, cnt)
-        | '(' :: _ => match decBrNode s cnt with
-          | some (k, r, cnt') => kids r cnt' (k :: acc)
-          | none => none
-        | _ => none
-      match kids r cnt [] with
-      | some (ks, r', cnt') => some (node { label := label } ks, r', cnt')
-      | none => none
+      (match r2.drop word.length with
+       | ')' :: r3 => some (leaf cnt { label := label, word := some word }, r3, cnt + 1)
+       | _ => none)
+    | '(' :: r2 =>
+      (match decBrKids fuel ('(' :: r2) cnt [] with
+       | some (ks, r', cnt') => some (node { label := label } ks, r', cnt')
+       | none => none)
     | _ => none
-  | _ => none
+  | _, _, _ => none
+def decBrKids : Nat → Str → Nat → List Tree → Option (List Tree × Str × Nat)
+  | 0, _, _, _ => none
+  | fuel + 1, ')' :: r, cnt, acc => some (acc.reverse, r, cnt)
+  | fuel + 1, '(' :: r, cnt, acc =>
+    (match decBrNode fuel ('(' :: r) cnt with
+     | some (k, r', cnt') => decBrKids fuel r' cnt' (k :: acc)
+     | none => none)
+  | _, _, _, _ => none
+end
 
 def decBrackets (line : Str) : Option Tree :=
-  match decBrNode line 1 with
+  match decBrNode (2 * line.length + 2) line 1 with
   | some (t, [], _) => some t
   | _ => none
 
@@ -193,17 +196,22 @@ def unescapeAux : Nat → Str → Str
 
 def unescapeXml (s : Str) : Str := unescapeAux (s.length + 1) s
 
-/-- attributes of one element line: name="value" or name='value' -/
-partial def attrs (s : Str) : List (Str × Str) :=
-  let s := s.dropWhile (fun c => c == ' ')
-  let name := s.takeWhile (fun c => c != '=' && c != ' ' && c != '>' && c != '/')
-  match s.drop name.length with
-  | '=' :: q :: r =>
-    if q == '"' || q == '\'' then
-      let v := r.takeWhile (· != q)
-      (name, unescapeXml v) :: attrs ((r.drop v.length).drop 1)
-    else []
-  | _ => if name.isEmpty then [] else attrs (s.drop name.length)
+/-- attributes of one element line: name="value" or name='value' (fuel = line length) -/
+def attrsAux : Nat → Str → List (Str × Str)
+  | 0, _ => []
+  | fuel + 1, s =>
+    let s := s.dropWhile (fun c => c == ' ')
+    let name := s.takeWhile (fun c => c != '=' && c != ' ' && c != '>' && c != '/')
+    match s.drop name.length with
+    | '=' :: q :: r =>
+      if q == '"' || q == '\'' then
+        let v := r.takeWhile (· != q)
+        (name, unescapeXml v) :: attrsAux fuel ((r.drop v.length).drop 1)
+      else []
+    | [] => []
+    | _ :: r => if name.isEmpty then attrsAux fuel r else attrsAux fuel (s.drop name.length)
+
+def attrs (s : Str) : List (Str × Str) := attrsAux (s.length + 1) s
 
 def attr (as : List (Str × Str)) (k : String) : Option Str := (as.find? (·.1 == k.toList)).map (·.2)
 
